@@ -4,7 +4,7 @@ with collision-biased arguments and client-side aliasing faults."""
 import copy
 
 import pywbem
-from pywbem import CIMError, CIMInstance, CIMInstanceName
+from pywbem import CIMError, CIMInstance, CIMInstanceName, CIMClass
 
 from simkit import modelgen as mg, store
 from simkit.prng import stream, digest
@@ -15,7 +15,9 @@ TIERS = {'quick': {'runs': 6400, 'budget_s': 60, 'models': 64},
          'thorough': {'runs': 10 ** 9, 'budget_s': 600, 'models': 4000}}
 RUN_WALL = 120
 RULE = ('each run = generated schema (1-3 namespaces, class trees of depth '
-        '<= 3, key and non-key properties of all types) and a history of '
+        '<= 3, key and non-key properties of all types incl. embedded '
+        'instances / objects of the declared, a derived, an unrelated or an '
+        'undeclared class, properties with Key(false)) and a history of '
         '5-40 CreateInstance/ModifyInstance/DeleteInstance/GetInstance/'
         'EnumerateInstances/EnumerateInstanceNames calls issued by 1-3 '
         'connections sharing the repository, with arguments biased towards '
@@ -40,10 +42,43 @@ ASSUMPTIONS = [
     'status codes is accepted']
 
 
+def pvalue(rr, p, null_p, cmap, plain):
+    """Value spec for the property p; embedded-instance / embedded-object
+    properties get instances of the declared class, of a subclass, of an
+    unrelated or an undeclared class, or (EmbeddedObject) a class."""
+    if not p.get('emb'):
+        return mg.gen_value(rr, p['type'], p.get('array', False), null_p)
+
+    def one(valid_only):
+        k = rr.random()
+        if p['emb'] == 'instance':
+            subs = [c['name'] for c in plain
+                    if mg.is_subclass(cmap, c['name'], p['embcls'])]
+            if valid_only or k < 0.7:
+                return mg.gen_embedded(rr, cmap, rr.choice(subs))
+            if k < 0.85:
+                return mg.gen_embedded(rr, cmap, rr.choice(plain)['name'])
+            return mg.gen_embedded(rr, cmap, p['embcls'], unknown=True)
+        if valid_only or k < 0.6:
+            return mg.gen_embedded(rr, cmap, rr.choice(plain)['name'])
+        if k < 0.8:
+            return mg.gen_embedded(rr, cmap, rr.choice(plain)['name'],
+                                   unknown=True)
+        return {'$embcls': copy.deepcopy(rr.choice(plain))}
+    if p.get('array'):
+        if rr.random() < null_p:
+            return {'t': 'string', 'a': None}
+        return {'t': 'string',
+                'a': [one(True) for _ in range(rr.choice([0, 1, 2]))]}
+    if rr.random() < null_p:
+        return {'t': 'string', 'v': None}
+    return {'t': 'string', 'v': one(False)}
+
+
 def gen_plan(run_seed, tier, index):
     r = stream(run_seed, 'plan')
     mseed = 300000 + r.randrange(TIERS[tier]['models'])
-    model = mg.gen_model(mseed, with_methods=False)
+    model = mg.gen_model(mseed, with_methods=False, extras=True)
     cmap = {c['name']: c for c in model['classes']}
     plain = [c for c in model['classes'] if not c['assoc']]
     nconn = r.choice([1, 1, 2, 3])
@@ -98,7 +133,7 @@ def gen_plan(run_seed, tier, index):
                                 p['name'].upper()])] = v
             elif not partial or r.random() < 0.6:
                 props[r.choice([p['name'], p['name'].lower()])] = \
-                    mg.gen_value(r, p['type'], p.get('array', False), 0.2)
+                    pvalue(r, p, 0.2, cmap, plain)
         return props
 
     n = r.randint(5, 40)
@@ -135,6 +170,17 @@ def gen_plan(run_seed, tier, index):
                     props[x] = {'t': props[x]['t'], 'v': None} \
                         if 'a' in props[x] else {'t': props[x]['t'],
                                                  'a': None}
+            elif bad < 0.24:
+                # an embedded instance in a property that is not declared
+                # as embedded
+                nk = [p['name'] for p in mg.all_props(cmap, c['name'])
+                      if not p['key'] and p['type'] == 'string' and
+                      not p.get('array') and not p.get('emb')]
+                if nk:
+                    props = {k: v for k, v in props.items()
+                             if k.lower() != nk[0].lower()}
+                    props[nk[0]] = {'t': 'string', 'v': mg.gen_embedded(
+                        r, cmap, r.choice(plain)['name'])}
             cn = r.choice([c['name'], c['name'], c['name'].lower()])
             if r.random() < 0.04:
                 cn = 'NoSuch'
@@ -219,9 +265,22 @@ def vary_path(path, how, r_int):
 
 def execute(plan):
     import random
-    model = mg.gen_model(plan['model_seed'], with_methods=False)
-    M = store.Machine(model, plan['nconn'], plan['default_ns'])
+    model = mg.gen_model(plan['model_seed'], with_methods=False,
+                         extras=True)
+    cmap_x = {c['name']: c for c in model['classes']}
+    plain_x = [c for c in model['classes'] if not c['assoc']]
+    try:
+        M = store.Machine(model, plan['nconn'], plan['default_ns'])
+    except Exception as e:  # pylint: disable=broad-except
+        # the schema and its initial instances are valid
+        return {'violations': [{
+            'sig': 'C10/valid-model-rejected/%s' % type(e).__name__,
+            'msg': 'loading the generated schema and instances: %r' % (e,)}],
+            'fingerprint': digest(['build-failed']), 'nontrivial': False,
+            'probes': {}, 'faults': {}, 'sim_seconds': 0.0, 'steps': 0}
     RM = M.model
+    if any(p.get('keyfalse') for c in model['classes'] for p in c['props']):
+        M.bump('schema_with_key_false')
     deleted = []          # paths of deleted instances
     changes = 0
     errors = 0
@@ -265,6 +324,18 @@ def execute(plan):
             if p.type != d['type'] or p.is_array != bool(d.get('array')):
                 return 'property %s type %s/%s vs %s/%s' % (
                     n, p.type, p.is_array, d['type'], d.get('array'))
+            if isinstance(p.value, CIMInstance):
+                if d.get('emb') == 'instance':
+                    if RM.cls(p.value.classname) is None or \
+                            not RM.is_sub(p.value.classname, d['embcls']):
+                        M.bump('embedded_instance_of_wrong_class')
+                        return 'property %s: embedded instance of %s, ' \
+                            'declared %s' % (n, p.value.classname,
+                                             d['embcls'])
+                elif d.get('emb') != 'object':
+                    return 'property %s is not an embedded object' % n
+            if isinstance(p.value, CIMClass) and d.get('emb') != 'object':
+                return 'property %s cannot hold a class' % n
         if for_create:
             for kn in RM.key_names(cdesc['name']):
                 if kn not in {x.lower() for x in inst.properties}:
@@ -401,6 +472,11 @@ def execute(plan):
                 break
             k2 = RM.store(ns, inst_copy)
             changes += 1
+            if any(isinstance(p.value, (CIMInstance, CIMClass)) or
+                   isinstance(p.value, list) and p.value and
+                   isinstance(p.value[0], CIMInstance)
+                   for p in inst_copy.properties.values()):
+                M.bump('created_with_embedded_object')
             if store.path_key(snap, ns) != k2:
                 viol('created-path-differs', 'step %d %s returned %r, the '
                      'keys of the instance are %r' % (i, what, snap, k2))
@@ -508,8 +584,7 @@ def execute(plan):
                                 d['name'], kv, type=d['type']))
                         continue
                     if vr.random() < 0.6:
-                        vs = mg.gen_value(vr, d['type'],
-                                          d.get('array', False), 0.2)
+                        vs = pvalue(vr, d, 0.2, cmap_x, plain_x)
                         props.append(mg.prop_to_cim(
                             vr.choice([d['name'], d['name'].lower()]), vs,
                             d))
